@@ -6,6 +6,7 @@ import (
 	"io"
 	"log"
 	"strings"
+	"time"
 
 	"github.com/iancoleman/strcase"
 	"github.com/pentops/j5/gen/j5/client/v1/client_j5pb"
@@ -777,6 +778,20 @@ func compileEntity(d *fileDecl) (out compiled) {
 	return
 }
 
+// compileWithTimeout runs the real compiler in its own goroutine: a change that makes it spin must
+// not hang the check. The goroutine of a timed-out compile cannot be killed; the runner stops after
+// three timeouts and the process exits after writing its result.
+func compileWithTimeout(d *fileDecl, limit time.Duration) (compiled, bool) {
+	ch := make(chan compiled, 1)
+	go func() { ch <- compileEntity(d) }()
+	select {
+	case out := <-ch:
+		return out, true
+	case <-time.After(limit):
+		return compiled{}, false
+	}
+}
+
 const c17Shard = 25
 
 func runC17(cfg *vh.Config) error {
@@ -865,6 +880,7 @@ func runC17(cfg *vh.Config) error {
 		kinds = append(kinds, c.kind)
 	}
 
+	timeouts := 0
 	for i, d := range decls {
 		text := d.j5s()
 		distinct.Add(text)
@@ -872,8 +888,17 @@ func runC17(cfg *vh.Config) error {
 		for _, e := range d.Ents {
 			countShape(res, e)
 		}
-		out := compileEntity(d)
+		out, finished := compileWithTimeout(d, 20*time.Second)
 		in := map[string]any{"j5s": text}
+		if !finished {
+			timeouts++
+			res.Fail(vh.Failure{Case: caseNo, Stream: "entity", Sig: "C17 compiler does not terminate on entity declaration (20 s)", Clause: "entity expansion is total", Input: in, Got: "timeout"})
+			caseNo++
+			if timeouts >= 3 {
+				break
+			}
+			continue
+		}
 		wantClass, malformed := wantErr[i]
 		if out.panicked != nil {
 			res.Count("compiler_panic")
